@@ -130,7 +130,16 @@ let c07_monitors ~(full : bool) (t : table) (where : string) : string list =
     if l = [] then ["invariant-broken " ^ where] else l
   end
 
-let c18_monitors (t : table) (o : op) (t' : table) (where : string) : string list =
+(* hist = hist_fails of the operations executed before o: the consecutive-failure counters derived from the
+   operation history (C18_fail_counter_is_consecutive); the leave-cause and record predicates are evaluated with
+   them, NOT with the implementation's own counter (t.fails, used only for the detail text) *)
+let c18_monitors (timpl : table) (hist : ((n * n) * n) list) (o : op) (t' : table) (where : string) : string list =
+  let t = with_fails timpl hist in
+  let where = match o with
+    | Track (nd, false, _, _) ->
+      Printf.sprintf "%s consecutive-failures=%d total=%d" where
+        (int_of_n (fails_read hist nd.nid nd.nip) + 1) (int_of_n (fails_read timpl.fails nd.nid nd.nip) + 1)
+    | _ -> where in
   let chk name ok = if ok then [] else [name ^ " " ^ where] in
   (if pol_full_b t o t' then []
    else if List.map (fun b -> b.ents) t.bks <> List.map (fun b -> b.ents) t'.bks then ["entry-displaced-by-newcomer " ^ where]
@@ -175,6 +184,7 @@ let handle ~(c07 : bool) ~(c18 : bool) (fields : string list) (impl : string) : 
       | _ -> () in
     compare_step 0;
     let timpl = ref (parse_table ctx h) in
+    let hist = ref [] in
     if c07 then mons := !mons @ c07_monitors ~full:true !timpl "step=0";
     let nsteps = Array.length snaps - 1 in
     List.iteri (fun k o ->
@@ -186,7 +196,8 @@ let handle ~(c07 : bool) ~(c18 : bool) (fields : string list) (impl : string) : 
         let t' = parse_table ctx h in
         let where = Printf.sprintf "step=%d" (k + 1) in
         if c07 then mons := !mons @ c07_monitors ~full:true t' where;
-        if c18 then mons := !mons @ c18_monitors !timpl o t' where;
+        if c18 then mons := !mons @ c18_monitors !timpl !hist o t' where;
+        hist := fails_step !hist o;
         timpl := t'
       end else if k = panic_at then begin
         (match !model with Some m -> model := step m o | None -> ());
